@@ -146,7 +146,7 @@ type concCase struct {
 func corrConc(seed uint64, n int, tier string, out string, replay string) {
 	m := StartModel()
 	defer m.Close()
-	rep := NewReport("C09", "conc", seed, "case = 2 or 3 install/upgrade operations on one release name run in their own goroutines through the real action package over shared memory or Secret storage and the simulated API server, from an empty, a deployed, an upgraded, or a failed-on-top history; every storage call (Query, Create, Update) and the cluster mutation of each operation waits at a gate, and a generated schedule decides which operation takes the next step (the property's granularity); the outcome of each operation, whether it touched resources, which revision it created and the stored history at quiescence are compared with the Lean interleaving model run on the same schedule, and the property is monitored on the implementation: one creator per revision, losers with an already-exists / in-progress / name-in-use error and no resource touched, well-formed history with at most one deployed revision; in the thorough tier all 924 interleavings of every pair are enumerated; non-trivial = the schedule switches between operations at least twice; distinct = hash of the case")
+	rep := NewReport("C09", "conc", seed, "case = 2 or 3 install/upgrade operations (every fifth case one of them an `install --replace`, judged by the monitors only) on one release name run in their own goroutines through the real action package over shared memory or Secret storage and the simulated API server, from an empty, a deployed, an upgraded, or a failed-on-top history; every storage call (Query, Create, Update) and the cluster mutation of each operation waits at a gate, and a generated schedule decides which operation takes the next step (the property's granularity); the outcome of each operation, whether it touched resources, which revision it created and the stored history at quiescence are compared with the Lean interleaving model run on the same schedule, and the property is monitored on the implementation: one creator per revision, losers with an already-exists / in-progress / name-in-use error and no resource touched, well-formed history with at most one deployed revision; in the thorough tier all 924 interleavings of every pair are enumerated; non-trivial = the schedule switches between operations at least twice; distinct = hash of the case")
 	ids := caseSeq("conc", seed, n)
 	for _, id := range ids {
 		r := NewRng(id.Seed, uint64(id.Index))
@@ -158,6 +158,12 @@ func corrConc(seed uint64, n int, tier string, out string, replay string) {
 		for i := 0; i < np; i++ {
 			c.Kinds = append(c.Kinds, Pick(r, []string{"install", "upgrade", "upgrade"}))
 			c.Force = append(c.Force, r.Chance(30))
+		}
+		// every fifth case one party is `install --replace` (not in the Lean model: such cases are judged by the
+		// property monitors only; not on a failed-on-top history, where --replace legitimately proceeds and the
+		// known C01 finding about replace over a deployed revision would show)
+		if id.Index%5 == 4 && c.History != "failed-on-top" {
+			c.Kinds[id.Index/5%np] = "install-replace"
 		}
 		// a random interleaving of 6 steps each
 		left := make([]int, np)
@@ -274,10 +280,11 @@ func concRun(m *Model, rep *Report, c concCase, seed uint64, idx int) {
 				Capabilities:     chartutil.DefaultCapabilities,
 			}
 			if p := safely(func() {
-				if c.Kinds[i] == "install" {
+				if c.Kinds[i] == "install" || c.Kinds[i] == "install-replace" {
 					in := action.NewInstall(cfg)
 					in.ReleaseName, in.Namespace, in.DisableOpenAPIValidation = "app", "default", true
 					in.Force = i < len(c.Force) && c.Force[i]
+					in.Replace = c.Kinds[i] == "install-replace"
 					_, errs[i] = in.Run(actChart(10*(i+1), false, false), map[string]any{})
 				} else {
 					up := action.NewUpgrade(cfg)
@@ -323,8 +330,18 @@ func concRun(m *Model, rep *Report, c concCase, seed uint64, idx int) {
 			sch = append(sch, i)
 		}
 	}
-	mr := m.Query(map[string]any{"op": "concRun", "ledger": ledgerJSON(before), "procs": procs, "schedule": sch})
-	want := parseLedger(mr["ledger"])
+	modelled := true
+	for _, k := range c.Kinds {
+		modelled = modelled && k != "install-replace"
+	}
+	var mr map[string]any
+	var want []modelRec
+	if modelled {
+		mr = m.Query(map[string]any{"op": "concRun", "ledger": ledgerJSON(before), "procs": procs, "schedule": sch})
+		want = parseLedger(mr["ledger"])
+	} else {
+		rep.H("replace-party")
+	}
 	outcomes := ""
 	for i := range c.Kinds {
 		outcomes += map[bool]string{true: "W", false: "L"}[errs[i] == nil]
@@ -334,12 +351,13 @@ func concRun(m *Model, rep *Report, c concCase, seed uint64, idx int) {
 	// release object has changed what the others read before it calls Update, so the step boundaries of
 	// the model do not exist there.  The model is compared on the serialising backend; on memory the
 	// property monitors below (and the race detector, thorough tier) judge.
-	compare := c.Backend != "memory"
+	compare := c.Backend != "memory" && modelled
 	if compare && canon(after) != canon(want) {
 		rep.Issue(Issue{Kind: "disagreement", Fingerprint: "C09:model:ledger", What: "the stored history at quiescence differs from the model run on the same schedule", Case: c, Model: want, Impl: after, Seed: seed, Index: idx})
 		return
 	}
-	for i, pj := range mr["procs"].([]any) {
+	mprocs, _ := mr["procs"].([]any)
+	for i, pj := range mprocs {
 		if !compare {
 			break
 		}
